@@ -1,3 +1,4 @@
+use std::cell::Cell;
 use std::fmt::{Debug, Formatter};
 use anyhow::{anyhow, bail, Context, Result};
 use java_string::JavaString;
@@ -45,6 +46,8 @@ enum PoolEntry {
 
 /// How deep `Dynamic` pool entries may be nested in the arguments of their bootstrap methods.
 const MAX_DYNAMIC_DEPTH: usize = 256;
+/// How many arguments of the bootstrap methods of `Dynamic` pool entries may be resolved while reading one class file.
+const MAX_NESTED_LOADABLES: usize = 32768;
 
 impl PoolEntry {
 	fn as_utf8(&self) -> Result<&JavaString> {
@@ -294,6 +297,8 @@ impl PoolEntry {
 pub(crate) struct PoolRead {
 	/// We store a [`None`] for the zero index, as well as for the upper indices of [`PoolEntry::Double`] and [`PoolEntry::Long`].
 	inner: Vec<Option<PoolEntry>>,
+	/// How many arguments of bootstrap methods of [`PoolEntry::Dynamic`] have been resolved so far.
+	nested_loadables: Cell<usize>,
 }
 
 impl PoolRead {
@@ -404,7 +409,7 @@ impl PoolRead {
 			};
 		}
 
-		Ok(PoolRead { inner: pool })
+		Ok(PoolRead { inner: pool, nested_loadables: Cell::new(0) })
 	}
 
 	fn get(&self, index: u16) -> Result<&PoolEntry> {
@@ -521,6 +526,16 @@ impl PoolRead {
 
 	/// Like [`PoolRead::get_loadable`], for a loadable that is `depth` levels deep in arguments of bootstrap methods.
 	fn get_loadable_nested(&self, index: u16, bootstrap_methods: &Option<Vec<BootstrapMethodRead>>, depth: usize) -> Result<Loadable> {
+		// Every use of a constant as an argument of a `Dynamic` entry gets its own copy in the tree. This bounds the number
+		// of copies, so that a (malformed) class file where a few `Dynamic` entries share each other as arguments can't take
+		// time and memory exponential in its size.
+		if depth > 0 {
+			let nested_loadables = self.nested_loadables.get() + 1;
+			if nested_loadables > MAX_NESTED_LOADABLES {
+				bail!("more than {MAX_NESTED_LOADABLES} arguments of bootstrap methods of `Dynamic` pool entries");
+			}
+			self.nested_loadables.set(nested_loadables);
+		}
 		self.get(index)?.as_loadable(self, bootstrap_methods, depth).pool_context(index)
 	}
 
